@@ -76,6 +76,10 @@ CHECKS = {
                 technique="enumeration of operation histories x crash point (restart from any prefix snapshot) x distribution of views held by proxies x reachability; the production recover_epoch path over loopback TCP responders; adoption replayed on real proxies with real coordinator sync rounds",
                 text="For every history up to the length bound, every prefix state as the snapshot the broker restarts from, and a systematic family of proxy-view assignments (all latest, all at the crash point, each proxy alone ahead, fresh, unreachable, odd proxies one step behind) the real MemBrokerService::recover_epoch() is executed (it dials the proxies; responders answer UMCTL GETEPOCH); oracle: every served view has an epoch strictly above every reachable proxy's epoch and every epoch in the restored snapshot, unreachable proxies are reported; on a subset, real proxies pre-loaded with their views through the real sync path adopt the recovered view within two sync rounds.",
                 note="Uses real loopback sockets on 127.0.0.1-3:7000-7001 (uncontrolled timing, controlled data; cases run sequentially). The view assignment family is systematic but not the full product of all assignments. The hook proposed in the property (caller-supplied max epoch) is not used: the production path is exercised as is."),
+    "C03": dict(engine="simnet", cat="model_checking", ref="3/C03",
+                technique="delay-bounded exhaustive enumeration of message-level schedules (stateless DFS over a harness-owned network) of real proxies during a live migration, with a brute-force linearizability oracle over replies and final store contents",
+                text="Scenarios: 4->8 node scale-out, one focus migration between two real proxies (real broker, real coordinator rounds), two clients with 1-2 commands {GET,SET,DEL,INCR,EXISTS,EXPIRE,MSETNX,EVAL} on two keys that share a migration lock slot (plus one key outside the range) entering at the source, destination or a bystander proxy at different moments of the scan. Every proxy->proxy and proxy->Redis request waits at a gate owned by the explorer; all schedules with at most d deferrals (d=2 quick, 3 thorough; wide command-pair family d-1) are run to completion including the commit; each history (invocation/response steps, replies) together with the final contents of source and destination must admit a sequential explanation from the initial contents; keys of the range must be gone from the source.",
+                note="Bound: deferral span 16 serves; 1 ms timer steps only when nothing else is enabled. Trusted: the Redis stand-in (DUMP/RESTORE/BUSYKEY, EXISTS, scripts), real-time order by explorer step. The 2 clients x 2 keys alphabet is the whole data space explored."),
     "C19": dict(engine="simnet", cat="model_checking", ref="3/C19",
                 technique="enumeration of PTTL reply classes x the three transfer paths on complete real migrations between real proxies, with the source stand-in scripted; observation of the RESTORE ttl argument at the destination stand-in",
                 text="For each transfer path (background scan; on-demand pull triggered by a read at the destination proxy while the scan is held; push triggered by a deleting command => UMSYNC) and each PTTL reply class {-2,-1,0,1,2,999,2^31,2^63-1,2^63,'abc','','+5','-0'} a full migration (real broker, real coordinator sync, 4 real proxies) is run and the ttl argument of the RESTORE that reaches the destination is judged: -1 => 0, p>=1 => 1..p, 0 => >=1 (never the value RESTORE reads as persistent), -2 => no transfer, malformed => no panic; plus real TTL round trips (persistent, 400 ms, 5 s, 100 s) checked by PTTL at the destination.",
